@@ -288,7 +288,7 @@ fn execute(w: &Workload) {
         world::WORLD.with(|x| *x.borrow_mut() = None);
         return;
     };
-    clock::enable(t_start, sc.faults.tick_base_ns, sc.faults.tick_jitter_ns, tick_seed);
+    clock::enable(t_start, sc.faults.tick_base_ns.max(1), sc.faults.tick_jitter_ns, tick_seed);
     clock::set_logging(false);
     let stamp = Arc::new(AtomicU64::new(1));
     let history: Arc<Mutex<Vec<Op>>> = Arc::new(Mutex::new(Vec::new()));
